@@ -1,7 +1,7 @@
 """C26 — persisters honour the store contract."""
 from ..facts import Program, AnalysisBroken
 from .. import q
-from . import c18
+from . import c18, c27
 
 CLAIM = {
     'text': 'Sibling-agreement, provenance and extent rules over MemoryPersister and FilePersister: the control-record put replaces an '
@@ -19,7 +19,7 @@ EXPLANATION = (
     "derives both results from the mapped value's content; R26.2 put(seq,bytes) returns false for seq 0 and for an occupied key (find hit "
     "or insert().second), get_last_seqnum is rbegin()->first or 0 when empty, find_nearest_highest_seqnum scans requested..last inclusive "
     "upwards and returns the first key found, else 0; R26.3 range get protocol (see C18); R26.4 each read(fd, local array, n) has n <= "
-    "array size by constant or dominating guard. NOT decided: operation sequences, I/O failures.")
+    "array size by constant or dominating guard. R26.5 FilePersister::put appends at lseek(_fod, 0, SEEK_END) (get repositions the same descriptor). NOT decided: operation sequences, I/O failures.")
 
 IMPL = (('FIX8::MemoryPersister', '_store'), ('FIX8::FilePersister', '_index'))
 
@@ -203,6 +203,15 @@ def run(ctx):
                       'read(%s) of `%s` bytes into a %d-byte stack buffer without a dominating bound (a stored record longer than the '
                       'buffer overflows the stack)' % (c.args[1].text(), n.text(), cap))
     ctx.need(n_reads >= 2, 'expected >= 2 reads into stack buffers in FilePersister, found %d' % n_reads)
+    # R26.5 'retrieving a number returns the bytes stored for it' with interleaved puts and gets: records are appended at the END of the data file
+    cand = [f for f in prog.fns('FIX8::FilePersister::put') if 'basic_string' in f.sig or 'f8String' in f.sig]
+    ctx.need(len(cand) == 1, 'FilePersister::put(seq, bytes) not found')
+    fput = cand[0]
+    ctx.saw(fput)
+    dw = [c for c in fput.calls() if c.callee_qp == 'write' and c27._fd_is(c.args[0], '_fod')]
+    ctx.need(len(dw) == 1, 'FilePersister::put: data write not found')
+    c27.append_rule(ctx, fput, dw[0], 'R26.5')
+    ctx.floor('R26.5', 1)
     ctx.floor('R26.1', 6)
     ctx.floor('R26.2', 12)
 
